@@ -39,8 +39,18 @@ class Digester:
         self._feed(h, obj, 0)
         return h.hexdigest()[:16]
 
+    @staticmethod
+    def _g(f):
+        """An attribute read that cannot kill the digest: under a broken tree an attribute may hold anything, or raise.  What cannot be
+        read or converted is digested as a marker, so the state still has a deterministic description the oracles can compare."""
+        try:
+            return f()
+        except Exception as e:      # noqa
+            return ('<unreadable>', type(e).__name__)
+
     def _feed(self, h, o, depth):
         L = self.L
+        g = self._g
         if depth > 12:
             h.update(b'<deep>')
             return
@@ -84,49 +94,49 @@ class Digester:
             h.update(b'P' + str(o).encode())
         elif isinstance(o, L.field.Field):
             h.update(b'Fd')
-            self._feed(h, o.data, depth + 1)
-            self._feed(h, [int(x) for x in o.offset], depth + 1)
-            self._feed(h, None if o.pixelscale is None else np.asarray(o.pixelscale, dtype=float), depth + 1)
-            self._feed(h, list(o.tilt), depth + 1)
+            self._feed(h, g(lambda: o.data), depth + 1)
+            self._feed(h, g(lambda: [int(x) for x in o.offset]), depth + 1)
+            self._feed(h, g(lambda: None if o.pixelscale is None else np.asarray(o.pixelscale, dtype=float)), depth + 1)
+            self._feed(h, g(lambda: list(o.tilt)), depth + 1)
         elif isinstance(o, L.Wavefront):
             h.update(b'W')
-            self._feed(h, float(o.wavelength), depth + 1)
-            self._feed(h, None if o.pixelscale is None else np.asarray(o.pixelscale, dtype=float), depth + 1)
-            self._feed(h, float(o.focal_length), depth + 1)
-            self._feed(h, o.ptype, depth + 1)
-            self._feed(h, tuple(int(x) for x in o.shape), depth + 1)
-            self._feed(h, o.diameter, depth + 1)
-            self._feed(h, list(o.data), depth + 1)
+            self._feed(h, g(lambda: float(o.wavelength)), depth + 1)
+            self._feed(h, g(lambda: None if o.pixelscale is None else np.asarray(o.pixelscale, dtype=float)), depth + 1)
+            self._feed(h, g(lambda: float(o.focal_length)), depth + 1)
+            self._feed(h, g(lambda: o.ptype), depth + 1)
+            self._feed(h, g(lambda: tuple(int(x) for x in o.shape)), depth + 1)
+            self._feed(h, g(lambda: o.diameter), depth + 1)
+            self._feed(h, g(lambda: list(o.data)), depth + 1)
         elif isinstance(o, L.Plane):
             h.update(b'Pl' + type(o).__name__.encode())
-            self._feed(h, o.amplitude, depth + 1)
-            self._feed(h, o.opd, depth + 1)
-            self._feed(h, o.mask, depth + 1)
-            self._feed(h, None if o.pixelscale is None else np.asarray(o.pixelscale, dtype=float), depth + 1)
-            self._feed(h, o.ptype, depth + 1)
+            self._feed(h, g(lambda: o.amplitude), depth + 1)
+            self._feed(h, g(lambda: o.opd), depth + 1)
+            self._feed(h, g(lambda: o.mask), depth + 1)
+            self._feed(h, g(lambda: None if o.pixelscale is None else np.asarray(o.pixelscale, dtype=float)), depth + 1)
+            self._feed(h, g(lambda: o.ptype), depth + 1)
             if depth < 6:
-                self._feed(h, list(o.tilt), depth + 1)
+                self._feed(h, g(lambda: list(o.tilt)), depth + 1)
             for name in ('focal_length', 'x', 'y', 'trace', 'dispersion', 'angle', 'order', 'axis'):
                 # public attributes of the subclasses, however they are stored (instance dict or property)
                 if name in getattr(o, '__dict__', {}) or isinstance(getattr(type(o), name, None), property):
                     self._feed(h, name, depth + 1)
-                    self._feed(h, getattr(o, name), depth + 1)
+                    self._feed(h, g(lambda: getattr(o, name)), depth + 1)
             if '_diameter' in getattr(o, '__dict__', {}):
                 self._feed(h, '_diameter', depth + 1)
                 self._feed(h, o.__dict__['_diameter'], depth + 1)
         elif isinstance(o, L.radiometry.Spectrum):
             h.update(b'Sp' + type(o).__name__.encode())
-            self._feed(h, o.wave, depth + 1)
-            self._feed(h, o.value, depth + 1)
-            self._feed(h, o.waveunit, depth + 1)
-            self._feed(h, o.valueunit, depth + 1)
+            self._feed(h, g(lambda: o.wave), depth + 1)
+            self._feed(h, g(lambda: o.value), depth + 1)
+            self._feed(h, g(lambda: o.waveunit), depth + 1)
+            self._feed(h, g(lambda: o.valueunit), depth + 1)
             if 'temp' in o.__dict__:
                 self._feed(h, o.__dict__['temp'], depth + 1)
         elif isinstance(o, L.radiometry.Material):
             h.update(b'Mt')
-            self._feed(h, o.transmission, depth + 1)
-            self._feed(h, o.emission, depth + 1)
-            self._feed(h, o.contam, depth + 1)
+            self._feed(h, g(lambda: o.transmission), depth + 1)
+            self._feed(h, g(lambda: o.emission), depth + 1)
+            self._feed(h, g(lambda: o.contam), depth + 1)
         elif isinstance(o, BaseException):
             h.update(b'X' + type(o).__name__.encode())
         elif isinstance(o, Fraction):
